@@ -2,10 +2,11 @@
 
    Model/Cli.v models the XML writer of the CLI (json_to_xml over quick-xml)
    and a parser for XML 1.1 documents of the shape it produces. Proved for all
-   inputs: text content survives the writer's escaping, and an element with a
-   name key and text without literal control characters parses back to exactly
-   that name and text. The check compares the binary's XML output byte for
-   byte with the model's rendering and judges well-formedness with the parser.
+   values: when map keys are XML names and strings hold no literal control
+   characters, the document is well-formed and parses to exactly the tree of the
+   value (c19_document_roundtrip); outside that class the document is not
+   well-formed (known findings, witnesses below). The check compares the
+   binary's XML output byte for byte with the model's rendering.
    JSON, BSON and debug outputs, exit status and error messages are observed on
    the real binary (not modelled). *)
 From GD Require Import Base.Prelude Model.Strings Model.View Model.Cli Proofs.CliProofs.
@@ -22,9 +23,24 @@ Theorem c19_leaf_element_roundtrip_partial : forall k s p rest f,
 Proof. exact leaf_element_roundtrip. Qed.
 Print Assumptions c19_leaf_element_roundtrip_partial.
 
-(* the full statement (decided per document by the check): for every value v
-   whose map keys are XML names and whose strings have no literal control
-   characters, xml_parse (xml_document v) = Some (XElem "data" (xtree None v)) *)
+(* the XML document, for every value: whenever the keys of all maps are XML
+   names and no string holds a literal control character (ok), the writer's
+   output is well-formed and parses to exactly the tree of the value: every
+   member under its own name, list elements repeated under the key of the list,
+   null as an empty element, text unescaped back to the original *)
+Theorem c19_document_roundtrip : forall l,
+  raw_number (JObj l) = None -> ok (JObj l) = true ->
+  xml_parse (xml_document (JObj l)) = Some (XElem (str "data") (xtree None (JObj l))).
+Proof. exact document_roundtrip. Qed.
+Print Assumptions c19_document_roundtrip.
+
+(* and compositionally, for a value under any name key followed by anything that parses *)
+Theorem c19_every_value_renders : forall v, ok v = true -> forall k tail nodes r ft,
+  is_name k = true -> parse_content ft tail = Some (nodes, r) ->
+  parse_content (cost v + ft) (json_to_xml (Some k) v ++ tail) = Some (xtree (Some k) v ++ nodes, r).
+Proof. exact every_value_renders. Qed.
+Print Assumptions c19_every_value_renders.
+
 Definition c19_full_statement (v : jv) : Prop :=
   xml_parse (xml_document v) = Some (XElem (str "data") (xtree None v)).
 
@@ -33,6 +49,10 @@ Definition c19_full_statement (v : jv) : Prop :=
 Example c19_refuted_key : xml_parse (xml_document (JObj [("rules"%string, JObj [("a b"%string, JStr (str "1"))])])) = None.
 Proof. vm_compute. reflexivity. Qed.
 Example c19_refuted_control : xml_parse (xml_document (JObj [("name"%string, JStr [1])])) = None.
+Proof. vm_compute. reflexivity. Qed.
+Example c19_ok_nonvacuous : ok (JObj [("name"%string, JStr (str "a<b & ""c"""));
+         ("players"%string, JList [JObj [("name"%string, JStr (str "x")); ("score"%string, JNum (-3))]]);
+         ("duration"%string, JObj [("$raw"%string, JStr (str "12.5"))])]) = true.
 Proof. vm_compute. reflexivity. Qed.
 Example c19_ex : c19_full_statement
   (JObj [("name"%string, JStr (str "a<b & ""c"""));
